@@ -825,7 +825,7 @@ func run(r *ev.Run) {
 		"images are only taken at strictly quiescent points, where every actor is idle, gated or blocked, so no write is in flight",
 	}
 	dir := r.TempDir()
-	nG := r.Scale(120, 1600)
+	nG := r.Scale(160, 1600)
 	nGrow := r.Scale(10, 60)
 	r.MinDistinct = r.Scale(50, 600)
 	cs := cfgs()
@@ -845,7 +845,7 @@ func run(r *ev.Run) {
 			seed := g.Uint64()
 			// a starved persister (the merger runs several merges within one persister round) is the schedule in
 			// which files are protected by nothing but the merger's own marks: over-represented on purpose
-			pols := append(append([]string{}, sched.Policies...), "duel", "merge-burst", "duel", "merge-burst")
+			pols := append(append([]string{}, sched.Policies...), "duel", "merge-burst", "duel", "merge-burst", "duel")
 			policy := pols[(i/len(cs))%len(pols)]
 			problem, wit, st, timedOut := runGated(r, dir, cfg, seed, policy)
 			r.Case(fmt.Sprintf("gated/%s/%s/%x", cfg.Name, policy, seed), st.imagesInWindow > 0)
